@@ -199,7 +199,14 @@ func (s *simscreen) drawCell(x, y int) int {
 	ubuf := make([]byte, 12)
 	nout := 0
 
-	for _, r := range simc.Runes {
+	for i, r := range simc.Runes {
+
+		if i > 0 && (r < ' ' || (r >= 0x7f && r < 0xa0) || !utf8.ValidRune(r) ||
+			(r >= 0xfdd0 && r <= 0xfdef) || r&0xfffe == 0xfffe) {
+			// a control character or a value that is no character is
+			// no combining mark: the terminal screen does not write it
+			continue
+		}
 
 		l := utf8.EncodeRune(ubuf, r)
 
